@@ -559,3 +559,103 @@ pub proof fn lemma_keeps_nerode_split(a: MzAut, p0: Partition, p1: Partition, b:
         }
     }
 }
+
+// a weaker exception keeps the invariant
+pub proof fn lemma_hop_weaken(a: MzAut, ls: Seq<SplitterList>, p: Partition, exc1: spec_fn(u32, u32, u32) -> bool, exc2: spec_fn(u32, u32, u32) -> bool)
+    requires hop_inv(a, ls, p, exc1),
+        forall|x: u32, y: u32, c: u32| x < a.n && y < a.n && c < a.m && same_blk(p, x, y) && #[trigger] exc1(x, y, c) ==> exc2(x, y, c),
+    ensures hop_inv(a, ls, p, exc2),
+{
+    assert forall|x: u32, y: u32, c: u32| x < a.n && y < a.n && c < a.m && same_blk(p, x, y) implies #[trigger] hop_pair(a, ls, p, exc2, x, y, c) by {
+        assert(hop_pair(a, ls, p, exc1, x, y, c));
+    }
+}
+
+// the exception of splitter (blk, c0) is the same for two partitions that agree on block blk
+pub proof fn lemma_exc_same(a: MzAut, ls: Seq<SplitterList>, p: Partition, p1: Partition, p2: Partition, blk: u32, c0: u32)
+    requires aut_ok(a), hop_inv(a, ls, p, exc_of(a, p1, blk, c0)), blk_intact(a, p1, p2, blk), c0 < a.m,
+    ensures hop_inv(a, ls, p, exc_of(a, p2, blk, c0)),
+{
+    let e1 = exc_of(a, p1, blk, c0);
+    let e2 = exc_of(a, p2, blk, c0);
+    assert forall|x: u32, y: u32, c: u32| x < a.n && y < a.n && c < a.m && same_blk(p, x, y) && #[trigger] e1(x, y, c) implies e2(x, y, c) by {
+        assert((a.d)(x, c) < a.n && (a.d)(y, c) < a.n);
+    }
+    lemma_hop_weaken(a, ls, p, e1, e2);
+}
+
+// one candidate handled: the loop state of refine_with_splitter advances
+pub proof fn lemma_rws_step(a: MzAut, p1: Partition, p2: Partition, p0: Partition, blk: u32, c0: u32, elems: Seq<u32>, sz: int, idx: int)
+    requires aut_ok(a), pt_wf(p0), pt_wf(p1), p0.base.size == a.n, p1.base.size == a.n, c0 < a.m, 1 <= blk < p0.base.block@.len(),
+        rws_inv(a, p1, p0, blk, c0, elems, sz, idx), cands_ok(a, p0, blk, c0, elems, sz), idx < sz,
+        split_one(a, p2, p1, elems[idx], blk, c0),
+    ensures rws_inv(a, p2, p0, blk, c0, elems, sz, idx + 1),
+{
+    let b = elems[idx];
+    let nb1 = p1.base.block@.len();
+    assert(refinable(a, p0, b, blk, c0));
+    assert(p0.base.block@.len() <= nb1);
+    assert forall|x: u32, y: u32| x < p0.base.size && y < p0.base.size && #[trigger] same_blk(p2, x, y) implies same_blk(p0, x, y) by {
+        assert(same_blk(p1, x, y));
+    }
+    assert(blk_intact(a, p2, p0, blk)) by {
+        assert forall|v: u32| v < a.n implies (#[trigger] pt_bid(p2, v) == blk) == (pt_bid(p0, v) == blk) by {
+            assert((pt_bid(p1, v) == blk) == (pt_bid(p0, v) == blk));
+            if pt_bid(p1, v) != b { assert(pt_bid(p2, v) == pt_bid(p1, v)); } else { assert(pt_bid(p2, v) == b || pt_bid(p2, v) == nb1); }
+        }
+    }
+    assert forall|k: int| idx + 1 <= k < sz implies blk_intact(a, p2, p0, #[trigger] elems[k]) by {
+        let e = elems[k];
+        assert(blk_intact(a, p1, p0, e));
+        assert(refinable(a, p0, e, blk, c0));
+        assert(e != b);
+        assert forall|v: u32| v < a.n implies (#[trigger] pt_bid(p2, v) == e) == (pt_bid(p0, v) == e) by {
+            assert((pt_bid(p1, v) == e) == (pt_bid(p0, v) == e));
+            if pt_bid(p1, v) != b { assert(pt_bid(p2, v) == pt_bid(p1, v)); } else { assert(pt_bid(p2, v) == b || pt_bid(p2, v) == nb1); }
+        }
+    }
+    assert forall|x: u32, y: u32, k: int| #![trigger same_blk(p2, x, y), elems[k]] x < a.n && y < a.n && same_blk(p2, x, y) && 0 <= k < idx + 1 && pt_bid(p0, x) == elems[k]
+        implies uni(a, p0, blk, c0, x, y) by {
+        assert(same_blk(p1, x, y));
+        if k < idx {
+        } else {
+            assert(blk_intact(a, p1, p0, elems[idx]));
+            assert(pt_bid(p1, x) == b);
+            assert(uni(a, p1, blk, c0, x, y));
+            assert((a.d)(x, c0) < a.n && (a.d)(y, c0) < a.n);
+        }
+    }
+}
+
+// every pair of one block agrees on the splitter: the exception is void
+pub proof fn lemma_rws_done(a: MzAut, ls: Seq<SplitterList>, p: Partition, p0: Partition, blk: u32, c0: u32, elems: Seq<u32>, sz: int, self_done: bool)
+    requires aut_ok(a), pt_wf(p0), pt_wf(p), p0.base.size == a.n, p.base.size == a.n, c0 < a.m, 1 <= blk < p0.base.block@.len(),
+        pt_finer(p, p0),
+        cands_ok(a, p0, blk, c0, elems, sz),
+        forall|x: u32, y: u32, k: int| #![trigger same_blk(p, x, y), elems[k]] x < a.n && y < a.n && same_blk(p, x, y) && 0 <= k < sz && pt_bid(p0, x) == elems[k] ==> uni(a, p0, blk, c0, x, y),
+        self_done ==> (forall|x: u32, y: u32| x < a.n && y < a.n && pt_bid(p0, x) == blk && #[trigger] same_blk(p, x, y) ==> uni(a, p0, blk, c0, x, y)),
+        !self_done ==> !refinable(a, p0, blk, blk, c0),
+        hop_inv(a, ls, p, exc_of(a, p0, blk, c0)),
+    ensures hop_inv(a, ls, p, no_exc()),
+{
+    let e1 = exc_of(a, p0, blk, c0);
+    assert forall|x: u32, y: u32, c: u32| x < a.n && y < a.n && c < a.m && same_blk(p, x, y) && #[trigger] e1(x, y, c) implies no_exc()(x, y, c) by {
+        assert(same_blk(p0, x, y));
+        let d0 = pt_bid(p0, x);
+        assert(1 <= d0 < p0.base.block@.len());
+        if d0 == blk && self_done {
+            assert(uni(a, p0, blk, c0, x, y));
+        } else if refinable(a, p0, d0, blk, c0) {
+            let k = choose|k: int| 0 <= k < sz && #[trigger] elems[k] == d0;
+            assert(uni(a, p0, blk, c0, x, y));
+        } else {
+            if x != y { lemma_pt_two(p0, x, y); }
+            if blk_size(p0, d0 as int) > 1 {
+                assert(!is_cand(a, p0, d0, blk, c0));
+                assert(!cand_at(a, p0, d0, blk, c0, x));
+                assert(!cand_at(a, p0, d0, blk, c0, y));
+            }
+        }
+    }
+    lemma_hop_weaken(a, ls, p, e1, no_exc());
+}
